@@ -41,6 +41,9 @@ type round struct {
 	End    string   `json:"end"` // fn-return | heartbeat-error | rebalance | partition-change | close | conn-drop
 	Code   int16    `json:"code,omitempty"`
 	WaitMs int      `json:"wait_ms"` // how long the generation lives before the ending event is triggered
+	// NextDelayMs: the application calls Next this long after the previous round ended: the group has joined and synced by
+	// then, the generation lives (and heartbeats are due) before anybody asks for it
+	NextDelayMs int `json:"next_delay_ms,omitempty"`
 	// CloseWhileErrorPending: after the generation ended, do not call Next; wait until the
 	// background rejoin has failed (an error waits to be handed to Next), then Close.
 	CloseWhileErrorPending bool      `json:"close_while_error_pending,omitempty"`
@@ -290,6 +293,9 @@ func run(tb ev.TB, c groupCase) (labels []string, nontrivial bool) {
 			pendingNext = nil
 			gen, err, nextAt = r.gen, r.err, r.at
 		} else {
+			if rd.NextDelayMs > 0 {
+				time.Sleep(time.Duration(rd.NextDelayMs) * time.Millisecond)
+			}
 			ctx, cancel := context.WithTimeout(context.Background(), 6*time.Second)
 			gen, err = cg.Next(ctx)
 			nextAt = time.Now()
@@ -618,6 +624,7 @@ func run(tb ev.TB, c groupCase) (labels []string, nontrivial bool) {
 		beats  int
 		first  time.Time // arrival of the first and of the last heartbeat
 		last   time.Time
+		times  []time.Time
 	}
 	gens := map[int32]*genInfo{}
 	var order []int32
@@ -653,6 +660,7 @@ func run(tb ev.TB, c groupCase) (labels []string, nontrivial bool) {
 			gi.first = ex.At
 		}
 		gi.last = ex.At
+		gi.times = append(gi.times, ex.At)
 		if !gi.end.IsZero() && ex.At.After(gi.end.Add(50*time.Millisecond)) {
 			fail("c15/heartbeat-after-generation-ended", "heartbeat seq %d for generation %d arrived %v after that generation had been replaced or the group closed", ex.Seq, gid, ex.At.Sub(gi.end))
 			return
@@ -676,6 +684,28 @@ func run(tb ev.TB, c groupCase) (labels []string, nontrivial bool) {
 				fail("c15/heartbeats-too-frequent", "generation %d: %d heartbeats arrived within %v; HeartbeatInterval is %v (SessionTimeout %v), at that interval at most %d fit", id, gi.beats, span, hb, sessionOf(c), most+1)
 				return
 			}
+		}
+		// the generation lives from the moment the coordinator answered its SyncGroup, whether or not Next was called yet
+		var syncedAt time.Time
+		for _, ex := range journal {
+			if ex.ApiKey == 14 && ex.Body != nil && ex.Outcome == "answered" && ex.RespBody != nil && int32(ex.Body["GenerationID"].(int64)) == id && ex.Body["MemberID"] == gi.member {
+				if code, _ := ex.RespBody["ErrorCode"].(int64); code == 0 {
+					syncedAt = ex.AnsweredAt
+				}
+			}
+		}
+		if gap := gi.start.Sub(syncedAt); !syncedAt.IsZero() && gap >= 10*hb+300*time.Millisecond {
+			n := 0
+			for _, at := range gi.times {
+				if at.After(syncedAt) && at.Before(gi.start) {
+					n++
+				}
+			}
+			if want := int(gap/hb) / 4; n < want {
+				fail("c15/heartbeats-missing-before-next", "generation %d was joined and synced %v before Next was called for it; with HeartbeatInterval %v only %d heartbeats were sent in between (a quarter of the expected number is %d)", id, gap, hb, n, want)
+				return
+			}
+			lab["generation_waited_for_next"] = true
 		}
 		if life >= 10*hb+time.Second {
 			want := int(life/hb) / 4
@@ -841,6 +871,9 @@ func genCase(t *rapid.T) groupCase {
 	nr := rapid.IntRange(1, 4).Draw(t, "rounds")
 	for i := 0; i < nr; i++ {
 		rd := round{WaitMs: rapid.SampledFrom([]int{0, 1, 5, 20, 60}).Draw(t, "waitMs")}
+		if rapid.IntRange(0, 9).Draw(t, "lateNext") == 0 {
+			rd.NextDelayMs = 400 + 12*c.HeartbeatMs
+		}
 		if i == 0 && rapid.IntRange(0, 11).Draw(t, "longLived") == 0 {
 			rd.WaitMs = 1000 + 10*c.HeartbeatMs + 50 // long enough for the heartbeat-rate rule
 		}
